@@ -1166,7 +1166,11 @@ class Pyramid(object):
 
     def _visit_leaves_parallel(self, callback, total, cli_progress, parallel):
         import multiprocessing as mp
-        from .par_util import check_workers, put_checking_workers
+        from .par_util import (
+            check_workers,
+            finish_checking_workers,
+            put_checking_workers,
+        )
 
         ready_queue = mp.Queue(maxsize=2 * parallel)
         done_event = mp.Event()
@@ -1198,8 +1202,7 @@ class Pyramid(object):
 
         # All done!
 
-        ready_queue.close()
-        ready_queue.join_thread()
+        finish_checking_workers(ready_queue, workers, done_event)
         done_event.set()
 
         for w in workers:
